@@ -324,7 +324,8 @@ def _run(scn, w, res):
                 if connected and tgt_conn and len(data) <= 24 and tgt is not None:
                     hit = [e for e in tgt.log if e[4] == data and e[3] == op["type"]]
                     stable = all(to == 0 or tab.get(to) == tables(c.t0, c.t1)[0].get(to) for tab in tables(c.t0, c.t1))
-                    if r is True and not hit and stable and isolated(nid, c, (196, 198, 193, op["type"])):
+                    at_home = to == 0 or (to in net.nodes and net.nodes[to].node.node_address == final.get(to))
+                    if r is True and not hit and stable and at_home and isolated(nid, c, (196, 198, 193, op["type"])):
                         res.add("reach", {"kind": "not_delivered"}, "send(to id %d) from id %d returned True but the message is not in that node's log" % (to, nid))
                     elif r is not True and stable and isolated(nid, c, (196, 198, 193, op["type"])) and final.get(to) is not None and to in ids and net.nodes[to].node.node_address == final.get(to):
                         res.add("reach", {"kind": "send_failed"}, "send(to id %d) from connected id %d returned %r on a loss-free medium" % (to, nid, r))
